@@ -188,6 +188,10 @@ class Gen:
         rng = self.rng
         k = rng.choice(['==', '!=', '<', '<=', '>', '>='])
         # no ties: integer column against a half-integer constant, or equality between integers
+        if k in ('==', '!=') and depth >= 1 and rng.random() < 0.12:
+            # a comparison of two comparisons (legal: a warning at most)
+            return [k, ['>', ['var', rng.choice(INT_COLS)], ['num', rng.randrange(-2, 3) + 0.5]],
+                    ['>', ['var', rng.choice(INT_COLS)], ['num', rng.randrange(-2, 3) + 0.5]]]
         if k in ('==', '!='):
             if rng.random() < 0.15:
                 # equality is exact: two numbers that differ in the ninth decimal are different
